@@ -53,7 +53,11 @@ impl Ctx {
     }
     /// seed of the idx-th case of this shard
     pub fn case_seed(&self, idx: u64) -> u64 {
-        util::mix(self.seed, self.shard as u64, idx)
+        let cs = util::mix(self.seed, self.shard as u64, idx);
+        // remembered for the abort / panic reporters (engines with several replay modes set the
+        // mode themselves)
+        util::CURRENT_CASE.store(cs, std::sync::atomic::Ordering::Relaxed);
+        cs
     }
 }
 
